@@ -74,7 +74,9 @@ fn get_delta_superficial_loss_info(
     // tiny enough one underflows in the multiplication).
     let calculated_sfl_amount: LessEqualZeroDecimal = match &m_sfl {
         Some(sfl) => c_maybe_round_to_effective_cent(
-            LessEqualZeroDecimal::try_from(*cap_loss * *sfl.sfl_ratio.to_posdecimal())
+            // (The ratio itself can also underflow to zero, if the only shares left
+            // at the end of the period are rounding dust, like 0.000...03.)
+            LessEqualZeroDecimal::try_from(*cap_loss * sfl.sfl_ratio.to_decimal())
                 .unwrap(),
         ),
         None => LessEqualZeroDecimal::zero(),
@@ -162,7 +164,11 @@ fn get_delta_superficial_loss_info(
             let ratio_of_sfl = &sfl.acb_adjust_affiliate_ratios[af];
             if !ratio_of_sfl.numerator.is_zero() && !af.registered() {
                 let af_ratio_posdecimal =
-                    PosDecimal::try_from(*ratio_of_sfl.to_gezdecimal()).unwrap();
+                    match PosDecimal::try_from(*ratio_of_sfl.to_gezdecimal()) {
+                        Ok(v) => v,
+                        // Rounding dust over the total can underflow to zero.
+                        Err(_) => continue,
+                    };
 
                 adjust_txs.push(Tx {
                     security: tx.security.clone(),
